@@ -4,6 +4,7 @@ the independent reader, one query set per (message, shape), all field values sym
 import json
 import multiprocessing as mp
 import os
+import re
 import time
 import traceback
 import z3
@@ -137,7 +138,7 @@ def run(tier, only=None, prop=PROP):
         for k, why in dropped.items():
             ck.violation(k[3:] + '/type', 'message type not reachable through its public path: ' + why, {'path': k[3:], 'error': why})
         targets = messages.world_targets(corpus) if kind == 'world' else messages.login_targets(corpus)
-        idxs = [i for i, (v, c, p) in enumerate(targets) if not only or only in p]
+        idxs = [i for i, (v, c, p) in enumerate(targets) if not only or (re.search(only, p) if '|' in only else only in p)]
         if not idxs:
             continue
         nproc = min(NCPU, len(idxs))
